@@ -17,7 +17,8 @@ PROP = dict(
           "{1toN}, {k}{z}{er}{sae}) is assembled as `inst; ret` and run on the host CPU from N pseudo-random machine states (all GPRs, status flags + DF, zmm0-31, "
           "k0-7, 8 KiB guarded scratch memory); every changed GP byte / vector or mask register / flag / scratch byte must be covered by query_rw_info (GP: "
           "write|extend byte masks, zero-extension bytes zero), every operand / memory / flag set not reported as read is perturbed in a second run and must not "
-          "influence any result, SIGILL is allowed only when query_features names a feature the host lacks, and every kRegMem operand of a register-only instance is "
+          "influence any result, SIGILL is allowed only when query_features names a feature the host lacks, some ISA-database form of the mnemonic in the emitted encoding "
+          "class (legacy/VEX/EVEX/XOP) must have all its extensions reported by query_features, and every kRegMem operand of a register-only instance is "
           "replaced by an rm_size-byte memory operand (validate + assemble + same results). Then rapidcheck-generated (form, choices, state seed) cases. Plus: every "
           "x86 form with a `reg+N` operand and every AArch64 form with an Nx{...} register list (dumped from db/isa_aarch64.json) must report the run through "
           "consecutive_lead_count/kConsecutive; plus one regeneration of the instruction tables (tools/tablegen-x86.js, tablegen-a64.js) on a scratch copy, which must "
@@ -27,6 +28,8 @@ PROP = dict(
                  "implicit operands are passed explicitly in ISA-database order (AsmJit's documented explicit forms); registers the API cannot name (vzeroupper, xlatb, MXCSR, x87/MMX state, stack pointer of push/pop) are excluded and counted",
                  "vector and mask registers are judged per register operand (the property names byte masks only for general-purpose registers); reads are judged per operand flag, as the register allocator uses them",
                  "memory writes are judged as 'some memory operand is reported as written' (the API has no address range)",
+                 "for the feature cross-check AVX512_F is taken to imply AVX2/AVX/FMA/F16C and AVX2 to imply AVX; AVX512_VL is not required for 512-bit or {er}/{sae} forms",
+                 "AArch64 read/write information cannot be executed here and the database's AArch64 access letters are name-derived (wrong for casp), so only register runs are checked for AArch64",
                  "rep-prefixed string instructions, lock/xacquire/xrelease prefixes and segment overrides are not generated here (encoding: C01)"],
 )
 META = dict(
